@@ -267,6 +267,8 @@ func (w *srvWorld) runScript(name string, ops []Op) {
 			}
 		case "O":
 			w.gates[op.Gate].Store(true)
+		case "A": // wait until another script opens the gate
+			w.gates[op.Gate].Await(true)
 		case "S":
 			_ = c.CloseWrite()
 		case "C":
@@ -378,7 +380,10 @@ func init() {
 	odd := func(k string) Op { return Op{K: "Q", IDs: []string{k}} }
 	srv("srv-refused-requests-a", "decodable requests the server must refuse (negative / minimal / larger / zero batch count, unsupported and absent version), each answered once, then a good request", SrvCfg{Conns: [][]Op{{odd("count-negative"), odd("count-min"), odd("count-more"), odd("count-zero"), odd("version-unsupported"), odd("version-zero"), W("ok1"), R("ok1"), OpClose}}})
 	srv("srv-refused-requests-b", "decodable requests the server must refuse (Undo option, unrouted operation, critical extension, negative maximum response size), then a good request", SrvCfg{Conns: [][]Op{{odd("undo"), odd("unrouted"), odd("critical-ext"), odd("max-response-size-negative"), W("ok1"), R("ok1"), OpClose}}})
-	srv("srv-2conn-big-slow-reader", "two connections with responses above 4 KiB through a 64-byte pipe: A reads the header of its response, then (at any time) the rest; B is served in between", SrvCfg{PipeCap: 64, Conns: [][]Op{{{K: "WB", IDs: []string{"okA"}}, {K: "R8"}, {K: "RB", IDs: []string{"okA"}}, OpClose}, {{K: "WB", IDs: []string{"okB"}}, {K: "R8"}, {K: "RB", IDs: []string{"okB"}}, OpClose}}})
+	srv("srv-2conn-big-slow-reader", "two connections with responses above 4 KiB through a 4 KiB pipe: A reads the header of its response and waits; B is served completely; then A reads the rest, which must still be its own response",
+		SrvCfg{PipeCap: 4096, Gates: []string{"b-done"}, Conns: [][]Op{
+			{{K: "WB", IDs: []string{"okA"}}, {K: "R8"}, {K: "A", Gate: "b-done"}, {K: "RB", IDs: []string{"okA"}}, OpClose},
+			{{K: "WB", IDs: []string{"okB"}}, {K: "R8"}, {K: "RB", IDs: []string{"okB"}}, {K: "O", Gate: "b-done"}, OpClose}}})
 	srv("srv-two-seq", "two sequential requests on one connection", SrvCfg{Conns: [][]Op{{W("ok1"), R("ok1"), W("terr2"), R("terr2"), OpClose}}})
 	srv("srv-pipelined", "two requests in one write, then read both", SrvCfg{Conns: [][]Op{{{K: "2", IDs: []string{"ok1", "perr2"}}, R("ok1", "perr2"), OpClose}}})
 	srv("srv-3pipelined-close", "three requests written back to back, then close without reading anything (requests still queued in the connection when it ends)", SrvCfg{Conns: [][]Op{{W("ok1"), W("ok2"), W("ok3"), OpClose}}})
